@@ -71,7 +71,8 @@ class Spec(lg.ArraySpec):
             return None
         addr = w.py_resolve(self.sym, r["path"], 1)
         if addr is None or addr not in self.arr:
-            return f"write to {r['path']} acknowledged but it designates no tag"
+            return None                     # an attribute that is not a tag (class-level attributes of instance 0 can
+                                            # be written): nothing the dump shows may change
         ty = self.ty[addr]
         reqty = lc.CODE2NAME.get(r["ty"])
         siz = lc.SIZES.get(ty, 80)
